@@ -134,13 +134,18 @@ Definition grid_match (dh : value * option tyexpr) (g : gobs) : bool :=
   | _, _ => false
   end.
 
-(* observed results, aligned with the model's own enumeration [grid_decls] *)
-Fixpoint bad_grid (i : nat) (l : list (value * option tyexpr)) (o : list gobs) : list nat :=
+(* observed results, aligned with the model's own enumeration [grid_decls];
+   indices in binary (the grid has 37842 points), at most the first 40
+   disagreements are reported *)
+Fixpoint bad_grid_all (i : N) (l : list (value * option tyexpr)) (o : list gobs) : list N :=
   match l, o with
   | [], [] => []
-  | dh :: r, g :: ro => if grid_match dh g then bad_grid (S i) r ro else i :: bad_grid (S i) r ro
+  | dh :: r, g :: ro => if grid_match dh g then bad_grid_all (N.succ i) r ro
+                        else i :: bad_grid_all (N.succ i) r ro
   | _, _ => [i]                (* lengths differ *)
   end.
+Definition bad_grid (l : list (value * option tyexpr)) (o : list gobs) : list N :=
+  firstn 40 (bad_grid_all 0%N l o).
 
 (* ---- @feedback ------------------------------------------------------- *)
 
